@@ -3,3 +3,7 @@
 set -e
 cd /verif/harness
 cargo build 2>&1 | tail -3
+# lock-level engine of C10 (second workspace, own target directory)
+python3 /verif/harness-sched/prepare.py
+cd /verif/harness-sched
+cargo build 2>&1 | tail -3
